@@ -1267,6 +1267,24 @@ class _Helper:
                 any(isinstance(s_, ast.Expr) and s_.value is y for s_ in _walk_scope(node))
                 for y in ys)
         self.gen_returns = bool(rs)
+        # a sub-generator that hands back a value (`v = yield from helper(..)`): folded back like
+        # a statement-bodied helper, its yields staying yields of the caller
+        self.genret: Optional["_Helper"] = None
+        if ys and any(r.value is not None for r in rs) and not any(
+                isinstance(x, ast.Await) for x in _walk_scope(node)):
+            g = copy.copy(self)
+            g.expr, g.proc, g.structured, g.loopconst, g.loopret = None, False, None, False, None
+            body_ = _strip_doc(node.body)  # type: ignore[attr-defined]
+            st_ = _structure_returns(body_)
+            if st_ is not None:
+                g.structured, g.proc = st_, True
+            elif _loop_const_shape(body_):
+                g.loopconst, g.proc = True, True
+            else:
+                g.loopret = _loop_ret_shape(body_)
+                g.proc = g.loopret is not None
+            if g.proc:
+                self.genret = g
         if self.expr is None and not self.proc and not any(
                 isinstance(x, (ast.Yield, ast.YieldFrom, ast.Await))
                 for x in _walk_scope(node)):
@@ -1825,6 +1843,10 @@ def _inline_proc_calls(fn: ast.AST, helpers, cls, counter: List[int]) -> int:
                 call, how = st.value, "assign"
             elif isinstance(st, ast.Return) and isinstance(st.value, ast.Call):
                 call, how = st.value, "return"
+            from_gen = False
+            if isinstance(st, ast.Assign) and isinstance(st.value, ast.YieldFrom) and \
+                    isinstance(st.value.value, ast.Call):
+                call, how, from_gen = st.value.value, "assign", True
             # `acc += helper(...)` / `acc.extend(helper(...))` where the helper builds and
             # returns a fresh list: the helper's list is the caller's accumulator
             acc_call = None
@@ -1870,6 +1892,10 @@ def _inline_proc_calls(fn: ast.AST, helpers, cls, counter: List[int]) -> int:
             h = recv = None
             if call is not None:
                 h, recv = _helper_of_call(call, helpers, cls)
+                if from_gen:
+                    h = h.genret if h is not None else None
+                elif h is not None and getattr(h, "genret", None) is not None and not h.proc:
+                    h = None
                 if (h is None or not h.proc) and how == "stmt" and call.args and isinstance(
                         call.func, ast.Attribute) and isinstance(call.args[0], ast.Call):
                     # x.extend(helper(...)) / x.append(helper(...))
